@@ -502,6 +502,8 @@ class Interp:
     def iter_model(self, it):
         if isinstance(it, MSet):
             return self.em.SetIterModel(it.s)
+        if isinstance(it, MList) and it.items is None and 'elems' in it.g:
+            return self.em.ElemsIterModel(it.g['elems'])
         if hasattr(it, 'iter_model'):
             return it.iter_model(self)
         raise Unsupported(f'no iteration model for {it!r}')
@@ -782,10 +784,21 @@ class Interp:
         if T is ast.Mult:
             if isinstance(a, (bytes, SBytes)) and isinstance(b, (int, SInt)):
                 return self.em.bytes_repeat(self, a, b)
-            return a * b
+            r = a * b
+            if type(r) is int and r >= 65536 and type(a) is int and type(b) is int:
+                return self.vc.big_const(r)       # e.g. 256 * 1024: a chunk size, generalised like the large literals
+            return r
         if T is ast.FloorDiv:
             if is_sym(b):
-                raise Unsupported('floor division by symbolic value')
+                # division by a symbolic divisor: over-approximated (sound for safety): only sign/magnitude facts are kept
+                bz = SInt.of(b)
+                if self.vc.branch(bz == 0, label='divzero'):
+                    raise_py('ZeroDivisionError', origin='floor division')
+                r = SInt.fresh('quot')
+                az = SInt.of(a)
+                self.vc.assume(implies(b_and(az >= 0, bz > 0), b_and(r >= 0, r <= az)))
+                self.vc.note('floor division by a symbolic divisor over-approximated')
+                return r
             if not is_sym(a) and b == 0:
                 raise_py('ZeroDivisionError')
             return a // b
